@@ -121,17 +121,32 @@ def cmd_run(props, tier='quick', which='all'):
                 elif p in also_of_seed(sd):     # a change filed under one property that another check must catch
                     targets.append((p, 'seeded/%s@%s' % (os.path.basename(sd), p), os.path.join(sd, 'patch.diff')))
     head = sh(['git', '-C', REPO, 'rev-parse', '--short', 'HEAD']).stdout.strip()
-    for p, key, diff in targets:
+    import threading, concurrent.futures
+    lock = threading.Lock()
+    par = int(os.environ.get('MUT_PARALLEL', '1'))
+    if par > 1:
+        os.environ['VERIF_JOBS'] = str(max(2, 16 // par))
+
+    def one(t):
+        p, key, diff = t
         with Worktree() as wt:
             ok, err = apply(wt, diff)
             if not ok:
-                results[key] = {'property': p, 'applies': False, 'error': err[-300:], 'repo_head': head}
-                print(f'{key}: DOES NOT APPLY'); continue
-            r = run_check(p, wt, tier)
-        r.update(property=p, applies=True, tier=tier, repo_head=head, detected=(r['exit'] == 1))
-        results[key] = r
-        print(f"{key}: {'DETECTED' if r['detected'] else 'MISSED (exit %s)' % r['exit']}  {r['wall_s']}s  {r['first'][:140]}")
-        json.dump(results, open(respath, 'w'), indent=1, sort_keys=True)
+                r = {'property': p, 'applies': False, 'error': err[-300:], 'repo_head': head}
+                line = f'{key}: DOES NOT APPLY'
+            else:
+                r = run_check(p, wt, tier, timeout=int(os.environ.get('MUT_TIMEOUT', '3600')))
+                r.update(property=p, applies=True, tier=tier, repo_head=head, detected=(r['exit'] == 1))
+                line = f"{key}: {'DETECTED' if r['detected'] else 'MISSED (exit %s)' % r['exit']}  {r['wall_s']}s  {r['first'][:140]}"
+        with lock:
+            cur = json.load(open(respath)) if os.path.exists(respath) else {}
+            cur[key] = r
+            json.dump(cur, open(respath, 'w'), indent=1, sort_keys=True)
+            results[key] = r
+            print(line, flush=True)
+
+    with concurrent.futures.ThreadPoolExecutor(par) as ex:
+        list(ex.map(one, targets))
     return results
 
 
